@@ -31,6 +31,21 @@ type Ctx struct {
 
 	stepOnce sync.Once
 	step     *stepAnalysis
+
+	runOnce sync.Once
+	runS    *runSem
+}
+
+func (cx *Ctx) runSem() *runSem {
+	cx.runOnce.Do(func() {
+		defer func() {
+			if x := recover(); x != nil {
+				cx.runS = &runSem{err: fmt.Errorf("analyzer panic in the Run summary: %v", x), returns: map[string]int{}}
+			}
+		}()
+		cx.runS = analyseRunSem(cx)
+	})
+	return cx.runS
 }
 
 // InstallResolvers lets the shape rules resolve calls through constant
